@@ -88,3 +88,4 @@ def _tname(exp, got):
 
 def shrink(case):
     yield from common.shrink_tasks(case, {"main"})
+    yield from common.shrink_buffers(case, ("main",))
